@@ -12,6 +12,7 @@ EXTENDS Integers, Sequences, FiniteSets, TLC, Emit
 CONSTANTS Dim, MaxTok, MaxStack, Rich,    \* Rich = FALSE: core alphabet (exhaustive runs); TRUE: full alphabet
           Poly,                             \* TRUE: polynomial fragment only (C01): no builtin functions, no division,
                                             \* degree bookkeeping <<du, dv, df>> (trial, test, coefficient fields)
+          Bnd,                              \* TRUE: boundary integrals (the unit normal "nrm" is available; measure ds)
           NcU, NcV                          \* number of components of the trial / test functions (1 = scalar; 2 = vector-
                                             \* valued: the leaves are then the vector, its components, divergence and
                                             \* Jacobian instead of the scalar function and its derivatives)
@@ -32,7 +33,7 @@ VToks == {"v", "vx", "vy", "vyp", "gv", "Hv", "w0", "w1", "divv", "vvec", "Gv"}
 LeafS == UTokS \cup VTokS \cup {"c", "two"} \cup
          (IF Rich THEN {"half", "three", "hpar", "hx"} \cup (IF Poly THEN {} ELSE {"gw"}) ELSE {})
 LeafD == {"f"} \cup (IF Rich THEN {"f2", "cD", "twoD"} ELSE {})
-LeafV == UTokV \cup VTokV \cup (IF Rich THEN {"g", "x", "gh"} ELSE {})
+LeafV == UTokV \cup VTokV \cup (IF Rich THEN {"g", "x", "gh"} ELSE {}) \cup (IF Bnd THEN {"nrm"} ELSE {})
 LeafM == UTokM \cup VTokM \cup (IF Rich THEN {"A", "J", "Ainv", "Jinv"} \cup (IF Poly THEN {} ELSE {"Gg"}) ELSE {"A"})
 
 UnSS == IF Poly THEN {"neg"} \cup (IF Rich THEN {"sq"} ELSE {})
